@@ -225,6 +225,7 @@ func c17Check(c c17Case) *kit.Verdict {
 		raw                  bool
 	}
 	var exps []expect
+	errorAdmissible := len(choices) == 0 // some admissible choice (e.g. one of several equal-metric routes) is not usable
 	for _, ch := range choices {
 		i := byName[ch.iface]
 		e := expect{iface: ch.iface, srcIP: ch.src, srcMAC: i.mac}
@@ -235,10 +236,12 @@ func c17Check(c c17Case) *kit.Verdict {
 			e.srcMAC = c.SrcMAC
 		}
 		if e.srcIP == "" {
+			errorAdmissible = true
 			continue // no IPv4 source address: not usable
 		}
 		if e.srcMAC == "" {
 			if c.Scan == "arp" {
+				errorAdmissible = true
 				continue // ARP needs a hardware address
 			}
 			e.raw = true
@@ -302,6 +305,12 @@ func c17Check(c c17Case) *kit.Verdict {
 	}
 	nports := 1
 	want := int(target.Size()) * nports
+	if len(probes) == 0 && errorAdmissible && failedVisibly {
+		// the rule allows several choices (equal metrics, several attached interfaces) and the one taken is unusable
+		v.Label("outcome=error-on-one-of-several-choices")
+		v.NonTrivial = len(c.Ifaces) >= 2
+		return v
+	}
 	if len(probes) == 0 {
 		return v.Failf("%s\nno probe frame left through any interface; expected %d through %s\n%s", line, want, exps[0].iface, ctx())
 	}
